@@ -160,27 +160,71 @@ PlaceTerm(L, c, a, skip) ==
 
 \* synchronize(): units whose cached bytes differ, ascending, each one WRITE command
 Diff(L, ca, cb, ph) ==
-    LET nu == Size(ca) \div L.unit
+    LET nu == MinN(Size(ca), Size(cb)) \div L.unit
         us == SelectSeq(Rng(0, nu - 1), LAMBDA u : \E a \in UnitAddrs(L, u) : Byte(ca, a) # Byte(cb, a))
     IN [i \in 1..Len(us) |-> [u |-> us[i], d |-> [j \in 1..L.unit |-> Byte(cb, us[i] * L.unit + j - 1)],
-                              ph |-> ph]]
+                              ph |-> ph, s |-> 0]]
 
-\* c0 = the image the reader-writer holds when the operation starts (= the tag memory)
-WritePlan(L, c0, msg, variant) ==
+\* ---- Type 2 sectors (tt2.py:526-563, 659-676).  Memory beyond SectorSize bytes is reached with SECTOR SELECT:
+\* packet 1 (ACK), packet 2 answered by SILENCE = the tag switched (passive ack); a NAK / a garbled answer =
+\* not switched.  The reader sends it only when the wanted sector differs from the one it believes to be current.
+\* A plan entry with s = 1 is one completed sector select (u = the sector).  READ commands change nothing and are not
+\* plan entries, but the sector selects they need are: the reader reads 16-byte chunks lazily, `ext` is how far.
+CONSTANT SectorSize      \* 1024 (scaled: 32)
+Chunk == 16
+HasSectors(L) == IsT2(L)
+SecOfAddr(a) == a \div SectorSize
+SecOfUnit(L, u) == IF HasSectors(L) THEN (u * L.unit) \div SectorSize ELSE 0
+UPS(L) == SectorSize \div L.unit
+\* the unit a WRITE really lands on when the tag is in sector tsec (the command carries only the page number)
+Landed(L, u, tsec) == IF HasSectors(L) THEN tsec * UPS(L) + (u % UPS(L)) ELSE u
+Sel(sec, ph) == [u |-> sec, d |-> <<>>, ph |-> ph, s |-> 1]
+RoundUp(n, m) == ((n + m - 1) \div m) * m
+
+\* prefix every write whose sector differs from the believed one with a sector select; result [cmds, rsec]
+WithSels(L, ws, rsec) ==
+    FoldLeft(LAMBDA acc, w :
+                LET sec == SecOfUnit(L, w.u) IN
+                IF sec # acc.rsec THEN [cmds |-> acc.cmds \o <<Sel(sec, w.ph), w>>, rsec |-> sec]
+                ELSE [cmds |-> Append(acc.cmds, w), rsec |-> acc.rsec],
+             [cmds |-> <<>>, rsec |-> rsec], ws)
+\* the sector selects of reading the chunks from ext up to (excluding) need; result [cmds, rsec, ext]
+ReadSels(L, ext, need, rsec, ph) ==
+    IF ~HasSectors(L) \/ need <= ext THEN [cmds |-> <<>>, rsec |-> rsec, ext |-> ext]
+    ELSE LET s0 == SecOfAddr(ext)
+             s1 == SecOfAddr(RoundUp(need, Chunk) - Chunk)
+             r == FoldLeft(LAMBDA acc, sec : IF sec # acc.rsec
+                                              THEN [cmds |-> Append(acc.cmds, Sel(sec, ph)), rsec |-> sec]
+                                              ELSE acc,
+                           [cmds |-> <<>>, rsec |-> rsec], Rng(s0, s1))
+         IN [cmds |-> r.cmds, rsec |-> r.rsec, ext |-> RoundUp(need, Chunk)]
+
+\* The reader-writer state rd = [cache, shadow, ext, rsec, ...]: cache = nfcpy's _data_in_cache (the image it wants),
+\* shadow = _data_from_tag (what it believes is on the tag), ext = how far it has read, rsec = the sector it believes
+\* the tag is in.  For a fresh tag object cache = shadow = the tag memory.  After a failed operation the SAME object
+\* is used again (the application repeats the assignment): the plan then starts from the cache / shadow left behind.
+WritePlanX(L, c0, sh, ext, rsec, msg, variant) ==
     LET off == L.off
         n == Len(msg)
         long == n >= LongLen
         c1 == Upd(c0, off + 1, 0)
+        s1 == WithSels(L, Diff(L, sh, c1, 1), rsec)
         p == PlaceData(c1, off + (IF long THEN 4 ELSE 2), L.skip, msg)
-        c2 == PlaceTerm(L, p.c, p.nxt, L.skip)
+        end == End(L, c0)
+        t == NextFree(p.nxt, L.skip, MaxN(end, p.nxt))
+        c2 == IF t < end THEN Upd(p.c, t, 254) ELSE p.c
+        r2 == ReadSels(L, ext, IF t < end THEN t + 1 ELSE p.nxt, s1.rsec, 2)
+        s2 == WithSels(L, Diff(L, c1, c2, 2), r2.rsec)
         c3 == IF long THEN Upd(Upd(Upd(c2, off + 1, 255), off + 2, n \div 256), off + 3, n % 256)
                       ELSE Upd(c2, off + 1, n)
         d3 == Diff(L, c2, c3, 3)
+        s3 == WithSels(L, IF variant = "asis" THEN d3 ELSE Reverse(d3), s2.rsec)
     IN
     IF n = 0 /\ variant = "asis"
-    THEN [cmds |-> Diff(L, c0, c1, 1), res |-> "crash"]        \* tt2.py:255 / tt1.py:231 unbound loop variable
-    ELSE [cmds |-> Diff(L, c0, c1, 1) \o Diff(L, c1, c2, 2) \o (IF variant = "asis" THEN d3 ELSE Reverse(d3)),
-          res |-> "ok"]
+    THEN [cmds |-> s1.cmds, res |-> "crash", imgs |-> <<c1, c1, c1>>, ext |-> ext]   \* unbound loop variable (fixed in C01-1)
+    ELSE [cmds |-> s1.cmds \o r2.cmds \o s2.cmds \o s3.cmds, res |-> "ok", imgs |-> <<c1, c2, c3>>, ext |-> r2.ext]
+\* a fresh reader-writer: everything it holds is what is on the tag
+WritePlan(L, c0, msg, variant) == WritePlanX(L, c0, c0, Size(c0), 0, msg, variant)
 
 Fill(c, from, to, skip, v) ==
     FoldLeft(LAMBDA acc, a : IF a \in skip \/ a >= Size(c) THEN acc ELSE Upd(acc, a, v), c, Rng(from, to))
@@ -189,33 +233,38 @@ Overlay(c, at, bytes) == FoldLeft(LAMBDA acc, i : Upd(acc, at + i - 1, bytes[i])
 TopazHdr == <<225, 16, 14, 0, 3, 0>>
 Topaz512Hdr == <<225, 16, 63, 0, 1, 3, 242, 48, 51, 2, 3, 240, 2, 3, 3, 0>>
 
-\* wipe = 256 encodes "no wipe"
-FormatPlan(L, c0, wipe, variant) ==
+\* wipe = 256 encodes "no wipe".  Type2Tag._format works on the NDEF object's memory reader (c0 / sh / ext / rsec as
+\* above); the Topaz formats create a new reader (c0 = sh = the tag memory).
+FormatPlanX(L, c0, sh, ext, rsec, wipe, variant) ==
     LET off == L.off
         end == End(L, c0)
         dowipe == wipe < 256
+        One(c, need) == LET r == ReadSels(L, ext, need, rsec, 1)
+                            w == WithSels(L, Diff(L, sh, c, 1), r.rsec)
+                        IN [cmds |-> r.cmds \o w.cmds, res |-> "ok", imgs |-> <<c, c, c>>, ext |-> r.ext]
     IN
     IF L.fmt = "T2" THEN
-        IF variant = "asis" THEN        \* tt2.py:378: 00 FE at offset+1..+2, whatever lives there
-            IF off + 2 >= Size(c0) THEN [cmds |-> <<>>, res |-> "crash"]     \* reads beyond the memory: NAK
+        IF variant = "asis" THEN        \* before C03-1: 00 FE at offset+1..+2, whatever lives there
+            IF off + 2 >= Size(c0) THEN [cmds |-> <<>>, res |-> "crash", imgs |-> <<c0, c0, c0>>, ext |-> ext]
             ELSE
             LET c1 == Upd(Upd(c0, off + 1, 0), off + 2, 254)
                 c2 == IF dowipe THEN Fill(c1, off + 3, end - 1, L.skip, wipe) ELSE c1
-            IN [cmds |-> Diff(L, c0, c2, 1), res |-> "ok"]
+            IN One(c2, IF dowipe THEN end ELSE off + 3)
         ELSE
             LET c1 == Upd(c0, off + 1, 0)
                 t == NextFree(off + 2, L.skip, MaxN(end, off + 2))
                 c2 == IF t < end THEN Upd(c1, t, 254) ELSE c1
                 c3 == IF dowipe THEN Fill(c2, t + 1, end - 1, L.skip, wipe) ELSE c2
-            IN [cmds |-> Diff(L, c0, c3, 1), res |-> "ok"]
+            IN One(c3, IF dowipe THEN end ELSE IF t < end THEN t + 1 ELSE off + 2)
     ELSE IF L.fmt = "Topaz" THEN
         LET c1 == Overlay(c0, 8, TopazHdr)
             c2 == IF dowipe THEN Fill(c1, 14, 103, {}, wipe) ELSE c1
-        IN [cmds |-> Diff(L, c0, c2, 1), res |-> "ok"]
+        IN [cmds |-> Diff(L, c0, c2, 1), res |-> "ok", imgs |-> <<c2, c2, c2>>, ext |-> ext]
     ELSE
         LET c1 == Overlay(c0, 8, Topaz512Hdr)
             c2 == IF dowipe THEN Fill(Fill(c1, 24, 103, {}, wipe), 128, 511, {}, wipe) ELSE c1
-        IN [cmds |-> Diff(L, c0, c2, 1), res |-> "ok"]
+        IN [cmds |-> Diff(L, c0, c2, 1), res |-> "ok", imgs |-> <<c2, c2, c2>>, ext |-> ext]
+FormatPlan(L, c0, wipe, variant) == FormatPlanX(L, c0, c0, Size(c0), 0, wipe, variant)
 
 \* what the simulated tag does with one write command (one-way bytes are OR-ed, read-only bytes keep)
 Store(L, m, u, d) ==
@@ -244,6 +293,9 @@ OneWayP(L, m, as) == \A a \in as \cap L.ow : (Byte(L.mem0, a) & Byte(m, a)) = By
 RoundTripP(L, m, op, msg) == RefRead(L, m) = IF op = "write" THEN Ndef(msg) ELSE Empty
 CapSoundP(L) == CodeCap(L) <= RefCapacity(L)
 
+\* C02 / C01 (retry on the same tag object): what the reader believes is on the tag (shadow) IS on the tag, for every
+\* byte it has read or successfully written (bytes with tag-side write semantics of their own are left out)
+CoherentP(L, m, sh) == \A i \in 1..MinN(Len(sh), Len(m)) : ((i - 1) \notin L.ow /\ (i - 1) \notin L.ro) => sh[i] = m[i]
 \* diagnosis for canonical keys: the three length-field bytes do not share one write unit
 Straddle(L) == (L.off + 1) \div L.unit # (L.off + 3) \div L.unit
 \* diagnosis: the byte after the length byte is not a free byte of the area
@@ -254,15 +306,30 @@ CONSTANTS Layouts,       \* set of derived, well-formed layout records
           BaseLens,      \* new message lengths tried on every layout (cap-1, cap, cap+1 are added)
           Wipes,         \* set of wipe values (256 = no wipe); {} disables Format
           Variants,      \* subset of {"asis", "fixed"}
-          Cuts           \* BOOLEAN: PowerCut enabled
+          Cuts,          \* BOOLEAN: PowerCut enabled
+          MaxFaults,     \* 0 / 1: one command of the operation fails with a tag error (transient RF fault, not executed)
+          MaxRetry       \* 0 / 1: the application repeats the operation on the same tag object after a failure
 
 NewMsg(n) == [i \in 1..n |-> 160 + (i % 3)]
 OldMsg(n) == [i \in 1..n |-> <<0, 3, 1>>[(i % 3) + 1]]
 
-Tagged(p, v) == [cmds |-> p.cmds, res |-> p.res, v |-> v]
+Tagged(p, v) == [cmds |-> p.cmds, res |-> p.res, v |-> v, imgs |-> p.imgs, ext |-> p.ext]
 
-VARIABLES lay, mem, plans, k, pc, op, msg, last
-vars == <<lay, mem, plans, k, pc, op, msg, last>>
+VARIABLES lay, mem, plans, k, pc, op, msg, last,
+          rd         \* the reader-writer: [cache, shadow, ext, rsec, tsec (the TAG's current sector), nf, tries]
+vars == <<lay, mem, plans, k, pc, op, msg, last, rd>>
+
+\* how far a fresh Type 2 reader has read after finding the NDEF TLV (16-byte chunks, up to the last value byte)
+ExtAfterRead(L) ==
+    IF ~IsT2(L) THEN Size(L.mem0)
+    ELSE LET w == Parse(L, L.mem0)
+             fs == FreeSeq(w.va, End(L, L.mem0) - 1, w.skip)
+             lastaddr == IF w.len = 0 \/ Len(fs) < w.len THEN w.va - 1 ELSE fs[w.len]
+         IN RoundUp(lastaddr + 1, Chunk)
+FreshReader(L, m) == [cache |-> m, shadow |-> m, ext |-> ExtAfterRead(L),
+                      rsec |-> IF HasSectors(L) THEN SecOfAddr(ExtAfterRead(L) - 1) ELSE 0,
+                      tsec |-> IF HasSectors(L) THEN SecOfAddr(ExtAfterRead(L) - 1) ELSE 0,
+                      nf |-> 0, tries |-> 0]
 
 Init ==
     /\ lay \in Layouts
@@ -273,47 +340,86 @@ Init ==
     /\ op = "none"
     /\ msg = <<>>
     /\ last = [u |-> 0, ph |-> 0, any |-> FALSE]
+    /\ rd = FreshReader(lay, lay.mem0)
 
 LensFor(L) == LET c == CodeCap(L) IN
     {n \in BaseLens \cup {c + 1} \cup (IF c >= 1 THEN {c - 1, c} ELSE {c}) : InScope(L, n)}
+
+PlanOf(v) == IF op = "write" THEN WritePlanX(lay, rd.cache, rd.shadow, rd.ext, rd.rsec, msg, v)
+             ELSE IF lay.fmt = "T2" THEN FormatPlanX(lay, rd.cache, rd.shadow, rd.ext, rd.rsec, msg[1], v)
+             ELSE FormatPlanX(lay, mem, mem, Size(mem), 0, msg[1], v)          \* Topaz formats read the tag anew
 
 BeginWrite(n) ==
     /\ pc = "idle"
     /\ op' = "write" /\ msg' = NewMsg(n)
     /\ IF n > CodeCap(lay)
        THEN pc' = "rejected" /\ plans' = {}
-       ELSE pc' = "run" /\ \E v \in Variants : plans' = {Tagged(WritePlan(lay, mem, NewMsg(n), v), v)}
-    /\ UNCHANGED <<lay, mem, k, last>>
+       ELSE pc' = "run" /\ \E v \in Variants :
+                plans' = {Tagged(WritePlanX(lay, rd.cache, rd.shadow, rd.ext, rd.rsec, NewMsg(n), v), v)}
+    /\ UNCHANGED <<lay, mem, k, last, rd>>
 
 BeginFormat(w) ==
     /\ pc = "idle" /\ lay.fmt # "none"
     /\ op' = "format" /\ msg' = <<w>>
-    /\ pc' = "run" /\ \E v \in Variants : plans' = {Tagged(FormatPlan(lay, mem, w, v), v)}
-    /\ UNCHANGED <<lay, mem, k, last>>
+    /\ pc' = "run" /\ \E v \in Variants :
+            plans' = {Tagged(IF lay.fmt = "T2" THEN FormatPlanX(lay, rd.cache, rd.shadow, rd.ext, rd.rsec, w, v)
+                             ELSE FormatPlanX(lay, mem, mem, Size(mem), 0, w, v), v)}
+    /\ UNCHANGED <<lay, mem, k, last, rd>>
 
-\* one state-changing command: the next one of the plan
+SetUnit(L, img, u, d) == FoldLeft(LAMBDA acc, j : IF u * L.unit + j - 1 < Size(acc) THEN Upd(acc, u * L.unit + j - 1, d[j]) ELSE acc,
+                                  img, Rng(1, L.unit))
+
+\* one state-changing command: the next one of the plan (a WRITE, or a completed SECTOR SELECT)
 DoCmd ==
     /\ pc = "run"
     /\ \E p \in plans :
         /\ k < Len(p.cmds)
         /\ LET c == p.cmds[k + 1] IN
-           /\ mem' = Store(lay, mem, c.u, c.d)
-           /\ last' = [u |-> c.u, ph |-> c.ph, any |-> TRUE]
+           IF c.s = 1
+           THEN /\ mem' = mem
+                /\ rd' = [rd EXCEPT !.rsec = c.u, !.tsec = c.u, !.cache = p.imgs[c.ph]]
+                /\ last' = last
+           ELSE /\ mem' = Store(lay, mem, Landed(lay, c.u, rd.tsec), c.d)
+                /\ rd' = [rd EXCEPT !.shadow = SetUnit(lay, rd.shadow, c.u, c.d), !.cache = p.imgs[c.ph]]
+                /\ last' = [u |-> Landed(lay, c.u, rd.tsec), ph |-> c.ph, any |-> TRUE]
     /\ k' = k + 1
     /\ UNCHANGED <<lay, plans, pc, op, msg>>
 
 Finish ==
     /\ pc = "run"
-    /\ \E p \in plans : k = Len(p.cmds) /\ pc' = (IF p.res = "ok" THEN "done" ELSE "crashed")
+    /\ \E p \in plans : /\ k = Len(p.cmds) /\ pc' = (IF p.res = "ok" THEN "done" ELSE "crashed")
+                        /\ rd' = [rd EXCEPT !.cache = p.imgs[3], !.ext = p.ext]
     /\ UNCHANGED <<lay, mem, plans, k, op, msg, last>>
 
 PowerCut ==
     /\ Cuts /\ pc = "run"
     /\ pc' = "cut"
+    /\ UNCHANGED <<lay, mem, plans, k, op, msg, last, rd>>
+
+\* where faults are explored exhaustively: the first and the last command of every phase, and every sector select
+FaultPoint(p, i) == IF p.cmds[i].s = 1 \/ i = 1 \/ i = Len(p.cmds) THEN TRUE
+                    ELSE p.cmds[i - 1].ph # p.cmds[i].ph \/ p.cmds[i + 1].ph # p.cmds[i].ph
+\* a transient fault: the next command is not executed by the tag and the operation ends with a tag command error
+\* (for SECTOR SELECT packet 2: a NAK or a garbled answer, never silence - silence IS the acknowledgement)
+FaultAt ==
+    /\ pc = "run" /\ rd.nf < MaxFaults
+    /\ \E p \in plans :
+        /\ k < Len(p.cmds) /\ FaultPoint(p, k + 1)
+        /\ rd' = [rd EXCEPT !.nf = rd.nf + 1, !.cache = p.imgs[p.cmds[k + 1].ph],
+                            !.ext = IF p.cmds[k + 1].ph >= 2 THEN p.ext ELSE rd.ext]
+    /\ pc' = "failed"
     /\ UNCHANGED <<lay, mem, plans, k, op, msg, last>>
 
+\* the application repeats the same call on the same tag object
+Retry ==
+    /\ pc = "failed" /\ rd.tries < MaxRetry
+    /\ pc' = "run" /\ k' = 0
+    /\ \E v \in Variants : plans' = {Tagged(PlanOf(v), v)}
+    /\ rd' = [rd EXCEPT !.tries = rd.tries + 1]
+    /\ UNCHANGED <<lay, mem, op, msg, last>>
+
 Next == (\E n \in LensFor(lay) : BeginWrite(n)) \/ (\E w \in Wipes : BeginFormat(w))
-        \/ DoCmd \/ Finish \/ PowerCut
+        \/ DoCmd \/ Finish \/ PowerCut \/ FaultAt \/ Retry
 Spec == Init /\ [][Next]_vars
 
 \* ------------------------------------------------------------------ invariants
@@ -326,6 +432,8 @@ Atomic      == AtomicP(lay, mem, op, msg)                                       
 Confined    == ConfinedP(lay, mem, All(lay))                                                 \* C03
 UnitsInArea == last.any => UnitInAreaP(lay, last.u)                                          \* C03
 LockOneWay  == OneWayP(lay, mem, All(lay))                                                   \* C03
+Coherent    == CoherentP(lay, mem, rd.shadow)                                                \* C01/C02 with retry
+SectorSync  == rd.rsec = rd.tsec                                                             \* C03 with sectors
 \* characterisation of the as-is code: Atomic fails only while a 3-byte length field that straddles
 \* write units is being committed; the only crash is the empty message (or a format whose
 \* terminator slot is beyond the memory); the area is left only by the T2 format terminator
@@ -336,6 +444,7 @@ CrashOnlyKnown    == pc = "crashed" => \/ op = "write" /\ msg = <<>>
 FormatSlip        == op = "format" /\ lay.fmt = "T2" /\ TermSlotBad(lay)
 ConfinedButFormat == Confined \/ FormatSlip
 UnitsButFormat    == UnitsInArea \/ FormatSlip
+CoherentButFormat == Coherent \/ FormatSlip
 \* the same invariants restricted to the fixed variant (one TLC run explores both variants)
 FxNoCrash     == IsFixed => NoCrash
 FxAtomic      == IsFixed => Atomic
